@@ -634,19 +634,12 @@ func (c *cmafIngester) sendMediaSegment(ctx context.Context, wg *sync.WaitGroup,
 	u := fmt.Sprintf("%s/%s", c.dest(), segPath)
 	c.log.Info("send media segment", "path", segPath, "segNr", segNr, "nowMS", nowMS, "url", u, "chunked", c.useChunked)
 
-	nrBytesCh := make(chan int)
-	defer close(nrBytesCh)
-	writeMoreCh := make(chan struct{})
-	defer close(writeMoreCh)
-	finishedSendCh := make(chan struct{})
-	defer close(finishedSendCh)
-
-	src := newCmafSource(nrBytesCh, writeMoreCh, c.log, u, contentType, c.user, c.passWord, c.useChunked)
+	src := newCmafSource(ctx, c.log, u, contentType, c.user, c.passWord, c.useChunked)
+	// A chunked upload is started by the first Write. Whatever way this function returns,
+	// a started upload is ended and waited for.
+	defer src.finishChunked()
 
 	// Create media segment based on number and send it to segPath
-	if c.useChunked {
-		go src.startReadAndSendChunked(ctx, finishedSendCh)
-	}
 	code, err := writeSegment(ctx, src, c.log, c.cfg, c.mgr.s.Cfg.DrmCfg, c.mgr.s.assetMgr.vodFS,
 		c.asset, segPart, nowMS, c.mgr.s.textTemplates, isLast)
 	c.log.Info("writeSegment", "code", code, "err", err)
@@ -673,11 +666,7 @@ func (c *cmafIngester) sendMediaSegment(ctx context.Context, wg *sync.WaitGroup,
 		c.log.Info("segment not sent due to configured status code", "path", segPath, "code", code)
 		return
 	}
-	if c.useChunked {
-		<-writeMoreCh   // Capture final message
-		nrBytesCh <- -1 // Signal that we are done to Read (that reads and pushes to remote)
-		<-finishedSendCh
-	} else {
+	if !c.useChunked {
 		// Write should have written everything to a c.buffer
 		req, err := http.NewRequestWithContext(ctx, "PUT", u, src.buffer)
 		if err != nil {
@@ -716,17 +705,21 @@ type cmafSource struct {
 	user        string
 	password    string
 	useChunked  bool
+	started     bool          // The chunked upload has been started (by the first Write)
+	doneCh      chan struct{} // Closed when the chunked upload request has ended, successfully or not
 }
 
-func newCmafSource(nrBytesCh chan int, writeMoreCh chan struct{}, log *slog.Logger, url string, contentType, user, password string,
+func newCmafSource(ctx context.Context, log *slog.Logger, url string, contentType, user, password string,
 	useChunked bool) *cmafSource {
 	cs := cmafSource{
+		ctx:         ctx,
 		url:         url,
 		contentType: contentType,
 		h:           make(http.Header),
 		log:         log,
-		nrBytesCh:   nrBytesCh,
-		writeMoreCh: writeMoreCh,
+		nrBytesCh:   make(chan int),
+		writeMoreCh: make(chan struct{}),
+		doneCh:      make(chan struct{}),
 		user:        user,
 		password:    password,
 		useChunked:  useChunked,
@@ -737,10 +730,10 @@ func newCmafSource(nrBytesCh chan int, writeMoreCh chan struct{}, log *slog.Logg
 	return &cs
 }
 
-func (cs *cmafSource) startReadAndSendChunked(ctx context.Context, finishedCh chan struct{}) {
-	cs.writeMoreCh <- struct{}{} // Get the writer going
-	cs.ctx = ctx
-	req, err := http.NewRequestWithContext(ctx, "PUT", cs.url, cs)
+// readAndSendChunked sends the PUT request with the source as body. It closes doneCh when the request has ended.
+func (cs *cmafSource) readAndSendChunked() {
+	defer close(cs.doneCh)
+	req, err := http.NewRequestWithContext(cs.ctx, "PUT", cs.url, cs)
 	if err != nil {
 		cs.log.Error("creating request", "err", err)
 		return
@@ -764,7 +757,23 @@ func (cs *cmafSource) startReadAndSendChunked(ctx context.Context, finishedCh ch
 		cs.log.Debug("Closing body", "url", cs.url)
 		resp.Body.Close()
 	}()
-	finishedCh <- struct{}{}
+}
+
+// finishChunked ends a started chunked upload: it takes the final message of the reader,
+// signals the end of the data and waits for the request to end.
+func (cs *cmafSource) finishChunked() {
+	if !cs.useChunked || !cs.started {
+		return
+	}
+	select {
+	case <-cs.writeMoreCh: // Final message: everything written has been read
+		select {
+		case cs.nrBytesCh <- -1: // Signal that we are done to Read (that reads and pushes to remote)
+		case <-cs.doneCh:
+		}
+	case <-cs.doneCh:
+	}
+	<-cs.doneCh
 }
 
 func (cs *cmafSource) Header() http.Header {
@@ -802,19 +811,33 @@ func (cs *cmafSource) Write(b []byte) (int, error) {
 		}
 		return n, err
 	}
-	<-cs.writeMoreCh
-	if cs.offset != 0 || cs.bufLevel != 0 {
-		cs.log.Warn("bad write levels", "url", cs.url, "offset", cs.offset, "bufLevel", cs.bufLevel)
+	if !cs.started {
+		cs.started = true
+		go cs.readAndSendChunked()
+	} else {
+		select {
+		case <-cs.writeMoreCh: // The previous data has been read
+		case <-cs.doneCh:
+			return 0, fmt.Errorf("upload to %s has ended", cs.url)
+		}
 	}
 	nrWritten := 0
 	for {
 		n := copy(cs.buf, b[nrWritten:])
-		cs.nrBytesCh <- n
+		select {
+		case cs.nrBytesCh <- n:
+		case <-cs.doneCh:
+			return nrWritten, fmt.Errorf("upload to %s has ended", cs.url)
+		}
 		nrWritten += n
 		if nrWritten == len(b) {
 			break
 		}
-		<-cs.writeMoreCh // Wait for OK from reader
+		select {
+		case <-cs.writeMoreCh: // Wait for OK from reader
+		case <-cs.doneCh:
+			return nrWritten, fmt.Errorf("upload to %s has ended", cs.url)
+		}
 	}
 	return len(b), nil
 }
@@ -831,7 +854,12 @@ func (cs *cmafSource) WriteHeader(status int) {
 // with io.EOF.
 func (cs *cmafSource) Read(p []byte) (int, error) {
 	if cs.offset >= cs.bufLevel {
-		nrAvailable := <-cs.nrBytesCh // wait for more bytes
+		var nrAvailable int
+		select {
+		case nrAvailable = <-cs.nrBytesCh: // wait for more bytes
+		case <-cs.doneCh:
+			return 0, io.ErrClosedPipe
+		}
 		cs.bufLevel = nrAvailable
 		if cs.bufLevel < 0 {
 			return 0, io.EOF
@@ -845,7 +873,11 @@ func (cs *cmafSource) Read(p []byte) (int, error) {
 	if cs.offset == cs.bufLevel {
 		cs.offset = 0
 		cs.bufLevel = 0
-		cs.writeMoreCh <- struct{}{}
+		select {
+		case cs.writeMoreCh <- struct{}{}:
+		case <-cs.doneCh:
+			return n, io.ErrClosedPipe
+		}
 	}
 	return n, nil
 }
